@@ -379,21 +379,52 @@ func TestRouteCred(t *testing.T) {
 		}
 		routes = append(routes, rt)
 	}
+	var sharp []RouteInfo // routes that write data, change the catalogue or control the server (other than /query)
+	for _, rt := range routes {
+		switch rt.Pattern {
+		case "/write", "/api/v2/write", "/api/v1/write", "/prometheus/{metric_store}/api/v1/write", "/debug/ctrl", "/backup/run", "/backup/abort",
+			"/backup/status", "/api/v1/tsdb/{tsdb}", "/fence/delete_fence", "/api/v1/otlp/metrics", "/metrics":
+			sharp = append(sharp, rt)
+		}
+		if e.Logkeep && isLogRoute(rt) && (rt.Method != "GET") {
+			sharp = append(sharp, rt)
+		}
+	}
 	campaign := "route_cred_" + cfg
 	ev.Note(campaign, "route_source", e.Source)
 	ev.Note(campaign, "routes_in_table", len(e.Routes))
 	rapid.Check(t, ev.Prop(prop, campaign, func(t *rapid.T, c *ev.Case) {
-		// /query carries most of the payload kinds: give it a quarter of the draws
+		// /query carries most of the payload kinds and the write/control routes the sharpest effects: weighted choice,
+		// the rest uniform over the whole table (where the many Prometheus routes dominate)
 		var rt RouteInfo
-		if rapid.IntRange(0, 3).Draw(t, "query_route") == 0 {
+		var r Req
+		switch b := rapid.IntRange(0, 9).Draw(t, "bucket"); {
+		case b <= 3 && !e.Logkeep:
 			rt = RouteInfo{Method: rapid.SampledFrom([]string{"GET", "POST"}).Draw(t, "qmethod"), Pattern: "/query", Source: "router"}
-		} else {
+			vs := e.variants(rt)
+			groups := map[string][]Req{}
+			var names []string
+			for _, v := range vs {
+				g := kindGroup(v.Kind)
+				if _, ok := groups[g]; !ok {
+					names = append(names, g)
+				}
+				groups[g] = append(groups[g], v)
+			}
+			g := groups[rapid.SampledFrom(names).Draw(t, "kind_group")]
+			r = g[rapid.IntRange(0, len(g)-1).Draw(t, "variant")]
+		case b <= 5 && len(sharp) > 0:
+			rt = sharp[rapid.IntRange(0, len(sharp)-1).Draw(t, "sharp_route")]
+			vs := e.variants(rt)
+			r = vs[rapid.IntRange(0, len(vs)-1).Draw(t, "variant")]
+		default:
 			rt = routes[rapid.IntRange(0, len(routes)-1).Draw(t, "route")]
+			vs := e.variants(rt)
+			r = vs[rapid.IntRange(0, len(vs)-1).Draw(t, "variant")]
 		}
-		vs := e.variants(rt)
-		r := vs[rapid.IntRange(0, len(vs)-1).Draw(t, "variant")]
 		cred := genCred(t)
 		it := Item{Req: r, Cred: cred}
+		c.Class("route:" + rt.Source)
 		v := e.judge(r, cred, true)
 		report(t, c, e, it, v)
 	}))
